@@ -76,7 +76,10 @@ func gen(r *verifsim.Rng, tier string) (any, hx.Sched) {
 	w := &W{}
 	nh := 1 + r.Intn(3)
 	kinds := []string{"read2", "read2", "read2", "loop", "arr", "obj", "depth", "closure", "helper",
-		"helperg", "objg", "closureg", "trycatch", "strbuild", "sortcb", "nested"}
+		"helperg", "objg", "closureg", "trycatch", "strbuild", "sortcb", "nested", "builtins"}
+	if r.Intn(12) == 0 {
+		kinds = append(kinds, "bigbody", "bigbody", "bigbody")
+	}
 	nr := 2 + r.Intn(4)
 	if tier == "thorough" {
 		nr = verifsim.Pick(r, []int{2, 3, 4, 6, 8, 12, 16, 24, 32, 64})
@@ -270,6 +273,10 @@ $server = new Server('127.0.0.1', 0);
 				fmt.Fprintf(&b, "  $t5 = $req->header(\"X-T\"); $parts = [];\n  for ($i = 0; $i < 4; $i++) { $parts[] = $t5 . $i;%s }\n  $out .= \"%s=\" . implode(\"|\", $parts) . strlen(str_repeat($t5, 3)) . \";\";\n", gate, lab)
 			case "sortcb":
 				fmt.Fprintf(&b, "  $t6 = $req->header(\"X-T\"); $sv = [3, 1, 2];\n  usort($sv, function($x, $y) use ($t6) { __gate(); return $x - $y; });\n  $out .= \"%s=\" . $t6 . implode(\"\", $sv) . \";\";\n", lab)
+			case "bigbody": // response bodies far above typical buffer sizes
+				fmt.Fprintf(&b, "  $t8 = $req->header(\"X-T\");\n  $out .= \"%s=\" . str_repeat($t8 . \".\", %d) . \";\";\n", lab, []int{9000, 14000, 40000}[bi%3])
+			case "builtins": // commonly used builtins that may keep scratch state
+				fmt.Fprintf(&b, "  $t9 = $req->header(\"X-T\");%s\n  $out .= \"%s=\" . json_encode([\"t\" => $t9, \"k\" => $k]) . sprintf(\"%%s-%%05d\", $t9, $k) . str_replace(\"t\", \"T\", $t9) . strtoupper($t9) . implode(\"+\", explode(\"v\", $t9)) . str_pad($t9, 8, \"*\") . md5($t9) . substr($t9, 1) . strrev($t9) . ucfirst($t9) . count(str_split($t9)) . preg_replace(\"/v(\\\\d+)/\", \"V$1\", $t9) . \";\";\n", gate, lab)
 			case "nested":
 				fmt.Fprintf(&b, "  $t7 = $req->header(\"X-T\");\n  $out .= \"%s=\" . outerfn($t7, %d) . \";\";\n", lab, 1+bi%3)
 			case "attr":
@@ -558,6 +565,9 @@ func diffSegments(a, b string) []string {
 		lab, _, _ = strings.Cut(lab, "=")
 		if _, k, ok := strings.Cut(lab, "."); ok {
 			lab = k
+		}
+		if len(lab) > 40 {
+			lab = "unparsable-segment"
 		}
 		kinds[lab] = true
 	}
